@@ -253,6 +253,8 @@ func checkC15(w *World) {
 		w.check(P, "R15.6", "ReadHtml returns the parser's error", rh.Pos(), ok, fmt.Sprintf("%v", ok))
 	}
 	w.floor(P, "R15.6", 3)
+	// the root is its own parent with position 0: the evaluator's root tests and the store's surplus-end handling rely on it
+	w.include(P, "C10", "R10.7")
 }
 
 // adapterError: the decoder's error is returned with a nil node under err != nil.
@@ -459,8 +461,24 @@ func (w *World) boundsDiscipline(P string, f *Facts, r *Roles) {
 				return
 			}
 			for _, idx := range idxs {
-				if _, isC := constInt(idx); isC {
-					// constant index into the flattened children / args: covered by C08 R08.2 and C07 R07.5
+				if k, isC := constInt(idx); isC {
+					// constant index into the flattened children / args: covered by C08 R08.2 and C07 R07.5;
+					// constant index into a node-set needs a length guarantee here or at every call site
+					if !isCursorSlice(base.Type(), r) {
+						continue
+					}
+					if _, isAlloc := base.(*ssa.Alloc); isAlloc {
+						continue
+					}
+					n++
+					okLen := lenAtLeast(in.Block(), base, k+1)
+					where := "in this function"
+					if !okLen {
+						if p, isParam := base.(*ssa.Parameter); isParam {
+							okLen, where = w.allCallersGuaranteeLen(fn, p, k+1), "at every call site"
+						}
+					}
+					w.check(P, "R15.3", fmt.Sprintf("constant index into a node-set in %s", fn.Name()), in.Pos(), okLen, fmt.Sprintf("element %d is read; the node-set is known to have more than %d elements %s: %v (an empty node-set makes a well-typed query fail with 'xpath query panic')", k, k, where, okLen))
 					continue
 				}
 				n++
@@ -514,6 +532,69 @@ func isStringRangeIndex(idx, base ssa.Value) bool {
 	}
 	rg, ok := nx.Iter.(*ssa.Range)
 	return ok && rg.X == base
+}
+
+func isCursorSlice(t types.Type, r *Roles) bool {
+	sl, ok := t.Underlying().(*types.Slice)
+	return ok && r.Cursor != nil && types.Identical(sl.Elem(), r.Cursor)
+}
+
+// lenAtLeast: block b is reached only when len(base) >= n was established.
+func lenAtLeast(b *ssa.BasicBlock, base ssa.Value, n int64) bool {
+	for _, a := range guardAtoms(b) {
+		bo, ok := a.V.(*ssa.BinOp)
+		if !ok {
+			continue
+		}
+		c, ok := bo.X.(*ssa.Call)
+		if !ok || !isLenOf(c, nil) || stripConv(c.Call.Args[0]) != stripConv(base) {
+			continue
+		}
+		k, isK := constInt(bo.Y)
+		if !isK {
+			continue
+		}
+		switch {
+		case bo.Op == token.EQL && !a.Pol && k == 0 && n == 1,
+			bo.Op == token.NEQ && a.Pol && k == 0 && n == 1,
+			bo.Op == token.GTR && a.Pol && k+1 >= n,
+			bo.Op == token.GEQ && a.Pol && k >= n,
+			bo.Op == token.EQL && a.Pol && k >= n,
+			bo.Op == token.LSS && !a.Pol && k >= n,
+			bo.Op == token.NEQ && !a.Pol && k >= n:
+			return true
+		}
+	}
+	return false
+}
+
+// allCallersGuaranteeLen: every static call of fn in package exec passes for parameter p a value whose length
+// is known to be at least n at the call.
+func (w *World) allCallersGuaranteeLen(fn *ssa.Function, p *ssa.Parameter, n int64) bool {
+	idx := -1
+	for i, x := range fn.Params {
+		if x == p {
+			idx = i
+		}
+	}
+	if idx < 0 {
+		return false
+	}
+	calls := 0
+	ok := true
+	w.forAllFuncs("exec", func(g *ssa.Function) {
+		allInstrs(g, func(in ssa.Instruction) {
+			c, isCall := in.(*ssa.Call)
+			if !isCall || staticCallee(c) != fn {
+				return
+			}
+			calls++
+			if !lenAtLeast(c.Block(), c.Call.Args[idx], n) {
+				ok = false
+			}
+		})
+	})
+	return ok && calls > 0
 }
 
 func orElse(s, d string) string {
@@ -770,6 +851,37 @@ func checkC19(w *World) {
 					wantSrc = "Bool"
 				}
 				covered[k] = true
+				// exactly one conversion from the source value (no intermediate narrower type)
+				nConv := 0
+				var via []string
+				cur := mi.X
+				for {
+					cv, isCv := cur.(*ssa.Convert)
+					if !isCv {
+						break
+					}
+					nConv++
+					via = append(via, cv.Type().String())
+					cur = cv.X
+				}
+				if nConv > 1 {
+					// an intermediate type narrower than the final one truncates
+					narrow := false
+					sizes := types.SizesFor("gc", "amd64")
+					final := sizes.Sizeof(mi.X.Type())
+					cur2 := mi.X.(*ssa.Convert).X
+					for {
+						cv, isCv := cur2.(*ssa.Convert)
+						if !isCv {
+							break
+						}
+						if sizes.Sizeof(cv.Type()) < final {
+							narrow = true
+						}
+						cur2 = cv.X
+					}
+					w.check(P, "R19.1", "conversion chain for kind "+reflectKindNames[k], ret.Pos(), !narrow, fmt.Sprintf("the number passes through %v; an intermediate type narrower than the field type (truncates values the field could hold): %v", via, narrow))
+				}
 				w.check(P, "R19.1", "conversion for kind "+reflectKindNames[k], ret.Pos(), got == k && src == wantSrc, fmt.Sprintf("case reflect.%s returns a %s built from %s(); required kind %s from %s()", reflectKindNames[k], mi.X.Type().String(), src, reflectKindNames[k], wantSrc))
 			}
 		})
